@@ -208,6 +208,18 @@ def effective_click(focal_plane, nominal_raw, unit, scale_inch, target_inch, mag
 
 
 # ---------------------------------------------------------------------------------------
+# C16 / C20
+def row_eq(a, b):
+    """two trajectory rows carry the same data"""
+    return (a.time == b.time and raw(a.distance) == raw(b.distance) and raw(a.velocity) == raw(b.velocity)
+            and a.mach == b.mach and raw(a.height) == raw(b.height) and raw(a.target_drop) == raw(b.target_drop)
+            and raw(a.drop_adj) == raw(b.drop_adj) and raw(a.windage) == raw(b.windage)
+            and raw(a.windage_adj) == raw(b.windage_adj) and raw(a.look_distance) == raw(b.look_distance)
+            and raw(a.angle) == raw(b.angle) and a.density_factor == b.density_factor and a.drag == b.drag
+            and raw(a.energy) == raw(b.energy) and raw(a.ogw) == raw(b.ogw) and a.flag == b.flag)
+
+
+# ---------------------------------------------------------------------------------------
 # per-shot state of the solver (C01/C05/C09/C10/C17): what _init_trajectory must derive from the shot
 def miller_sg(twist_in, length_in, diameter_in, weight_gr, mv_fps, temp_f, pressure_mmhg):
     """Miller stability with the velocity and atmosphere corrections; 0 when twist or bullet
